@@ -335,6 +335,11 @@
 /* size of per-context stack that is used during gc cycles
  * increase if you can affort extra unused memory */
 #define SEXP_MARK_STACK_COUNT 1024
+#ifdef CHIBI_VERIF_MARK_STACK_COUNT
+/* verification hook: lets a bounded-model-checking build shrink the context */
+#undef SEXP_MARK_STACK_COUNT
+#define SEXP_MARK_STACK_COUNT CHIBI_VERIF_MARK_STACK_COUNT
+#endif
 
 /* the default number of opcodes to run each thread for */
 #ifndef SEXP_DEFAULT_QUANTUM
